@@ -339,3 +339,43 @@ pub fn layer(name: &str, keys: &[&str], values: Vec<(Enc, MVal)>, features: Vec<
 pub fn feat(id: Option<u64>, tags: &[u32], gtype: u64, geom: Vec<u32>) -> MFeature {
 	MFeature { id, tags: tags.to_vec(), gtype, geom }
 }
+
+/// Bounded-exhaustive family of small layers: key tables {[], [k], [k,n], [n,k], [k,k]} x value tables
+/// {[], [v], [v,5], [5,v]} x feature lists {none; one feature with id none/1 and every list of <= 2 tag
+/// pairs with distinct key names; two features (ids 1, 2) with <= 1 tag pair each}.
+pub fn small_layers(name: &str) -> Vec<MLayer> {
+	let key_tabs: Vec<Vec<&str>> = vec![vec![], vec!["k"], vec!["k", "n"], vec!["n", "k"], vec!["k", "k"]];
+	let u5 = (Enc::UInt64, MVal::Int(5));
+	let val_tabs: Vec<Vec<(Enc, MVal)>> = vec![vec![], vec![s("v")], vec![s("v"), u5.clone()], vec![u5.clone(), s("v")]];
+	let mut out = vec![];
+	for kt in &key_tabs {
+		for vt in &val_tabs {
+			let pairs: Vec<(u32, u32)> = (0..kt.len() as u32).flat_map(|k| (0..vt.len() as u32).map(move |v| (k, v))).collect();
+			let mut tag_lists: Vec<Vec<u32>> = vec![vec![]];
+			for &(k, v) in &pairs {
+				tag_lists.push(vec![k, v]);
+			}
+			let single = tag_lists.clone();
+			for &(k1, v1) in &pairs {
+				for &(k2, v2) in &pairs {
+					if kt[k1 as usize] != kt[k2 as usize] {
+						tag_lists.push(vec![k1, v1, k2, v2]);
+					}
+				}
+			}
+			let mk = |features: Vec<MFeature>| layer(name, kt, vt.clone(), features);
+			out.push(mk(vec![]));
+			for t in &tag_lists {
+				for id in [None, Some(1u64)] {
+					out.push(mk(vec![feat(id, t, 1, point(1, 1))]));
+				}
+			}
+			for t1 in &single {
+				for t2 in &single {
+					out.push(mk(vec![feat(Some(1), t1, 1, point(1, 1)), feat(Some(2), t2, 2, line(&[(0, 0), (3, 3)]))]));
+				}
+			}
+		}
+	}
+	out
+}
